@@ -317,6 +317,18 @@ func twoPkgSpecs() map[string]fileSpec {
 				{Name: "U", In: a, Out: b}, {Name: "C", CS: true, In: b, Out: a}, {Name: "S", SS: true, In: b, Out: b}, {Name: "B", CS: true, SS: true, In: a, Out: a}, {Name: "L", In: "Req", Out: b}}}}}
 		}
 	}
+	// a local name and the same name with the underscore the generator would append to it, as the
+	// qualifiers of two packages: one method uses the one, a later (or earlier) method the other
+	for _, name := range []string{"n", "c", "ctx", "in", "x", "srv", "in1", "in2", "msg", "buf", "ok"} {
+		for _, swap := range []bool{false, true} {
+			a, b := ".ext.Note", ".ext2.Note2"
+			if swap {
+				a, b = b, a
+			}
+			out[fmt.Sprintf("%s_-then-%s-swap=%v", name, name, swap)] = fileSpec{Pkg: "a", JSON: !swap, Msgs: []string{"Req"}, ExtPkg: name + "_", ExtPkg2: name, Services: []svcSpec{{Name: "Svc", Methods: []methodSpec{
+				{Name: "First", In: a, Out: "Req"}, {Name: "Mid", SS: true, In: "Req", Out: "Req"}, {Name: "Later", In: b, Out: "Req"}, {Name: "Last", CS: true, SS: true, In: b, Out: b}}}}}
+		}
+	}
 	return out
 }
 
